@@ -160,11 +160,15 @@ def engine_order_phase(run, tier, wd, binary, rng):
         n = rng.choice([3, 4, 6])
         base = el.rand_scenario(rng, n, p_edge=rng.choice([0.3, 0.5]), fails=rng.choice([0, 0, 0.2]), lazies=rng.choice([0, 0.3]),
                                 wraps=rng.choice([0, 0, 0.3]), sid="C10-eng%d" % i)
+        base["kseed"] = rng.randint(1, 2 ** 31)      # one edge realisation (= one set of component definitions) per scenario
         for k in range(4):
             s = dict(base)
             o = list(range(1, n + 1)); rng.shuffle(o)
             g = list(range(1, n + 1)); rng.shuffle(g)
-            s.update(order=o, regOrder=g, seed=rng.randint(0, 2 ** 31), id="%s.p%d" % (base["id"], k))
+            # rawOrder: the real definition registry enumerates the candidates itself (no imposed order), so that the runs differ
+            # exactly in what C10 quantifies over: registration order, name enumeration of the singleton registry, run-to-run
+            # iteration order of the registries
+            s.update(order=o, regOrder=g, seed=rng.randint(0, 2 ** 31), id="%s.p%d" % (base["id"], k), rawOrder=True)
             scs.append(s)
     by_n = {}
     for s in scs:
